@@ -369,6 +369,9 @@ func minimallyEncode(data []byte) []byte {
 		return data
 	}
 
+	// Stack items may be shared, so never write into the operand.
+	data = append(make([]byte, 0, len(data)), data...)
+
 	last := data[len(data)-1]
 	if last&0x7f != 0 {
 		return data
